@@ -1,6 +1,6 @@
 """C10 - full-state tomography reconstructs exactly (necessary structural conditions)."""
 from ..rules_flow import Flow
-from ..rules_tomo import W14_returns, B1_B2_counts, W_fitter, W3_indexing, S2_estimator, S3_normalisation, W1_W2_builders
+from ..rules_tomo import B3_reembed, W14_returns, B1_B2_counts, W_fitter, W3_indexing, S2_estimator, S3_normalisation, W1_W2_builders
 from ..rules_conv import U1_defined_attributes, W15_flag_forwarding
 
 
@@ -14,6 +14,7 @@ def run(tree, rep, tier):
     W_fitter(rep, flow, want=("W4", "W5", "S1"))
     S2_estimator(rep, flow)
     S3_normalisation(rep, flow)
+    B3_reembed(rep, flow)      # a state on a subset of the register is reported on the full register: the same re-embedding as C11
     U1_defined_attributes(rep, flow, ['tomography'])
     W15_flag_forwarding(rep, flow)
     rep.trusted += ["Q1", "Q2", "Q5"]
